@@ -21,8 +21,10 @@ def DestOk (ns : Array NodeM) : Dest → Prop
   | .node u => ∃ (i : Nat) (n : NodeM), ns[i]? = some n ∧ n.uid = u
   | _ => True
 
-def NodeOk (ns : Array NodeM) (n : NodeM) : Prop :=
-  (∀ d ∈ n.exitDests, DestOk ns d) ∧ (∀ r, n.router = some (.sw r) → CaseCatsOk r)
+structure NodeOk (ns : Array NodeM) (n : NodeM) : Prop where
+  dests : ∀ d ∈ n.exitDests, DestOk ns d
+  dexit : DestOk ns n.dexitDest
+  cases : ∀ r, n.router = some (.sw r) → CaseCatsOk r
 
 def NodesOk (ns : Array NodeM) : Prop := ∀ (i : Nat) (n : NodeM), ns[i]? = some n → NodeOk ns n
 
@@ -48,7 +50,7 @@ theorem DestOk.ext {ns ns' : Array NodeM} (h : NExt ns ns') {d : Dest} (hd : Des
     exact ⟨i, n', hi', by rw [hu', hu]⟩
 
 theorem NodeOk.ext {ns ns' : Array NodeM} (h : NExt ns ns') {n : NodeM} (hn : NodeOk ns n) :
-    NodeOk ns' n := ⟨fun d hd => (hn.1 d hd).ext h, hn.2⟩
+    NodeOk ns' n := ⟨fun d hd => (hn.dests d hd).ext h, hn.dexit.ext h, hn.cases⟩
 
 theorem NExt.set {ns : Array NodeM} {i : Nat} {old n' : NodeM} (ho : ns[i]? = some old)
     (hu : n'.uid = old.uid) : NExt ns (ns.setIfInBounds i n') := by
@@ -244,6 +246,14 @@ theorem Grow.weaken {b b' : Nat} {l' : List Uid} (h : Grow b b' [] l') (l : List
 theorem Grow.perm_right {b b' : Nat} {l l' l'' : List Uid} (h : Grow b b' l l') (hp : l'.Perm l'') :
     Grow b b' l l'' := by
   intro x; rw [← hp.count_eq]; exact h x
+
+theorem Grow.mono_left {b b' : Nat} {l l2 l' : List Uid} (h : Grow b b' l l')
+    (hs : ∀ x, l.count x ≤ l2.count x) : Grow b b' l2 l' := by
+  intro x
+  have := hs x
+  constructor
+  · intro hx; have := (h x).1 hx; omega
+  · intro hx; have := (h x).2 hx; omega
 
 /-- growth inside a context -/
 theorem Grow.ctx {b b' : Nat} {l l' : List Uid} (h : Grow b b' l l') (a c : List Uid) :
